@@ -147,6 +147,22 @@ def rule_fresh(ctx):
             if isinstance(dflt, (ast.Dict, ast.List, ast.Set)) or (isinstance(dflt, ast.Call) and last_attr(dflt.func) in ("set", "dict", "list")):
                 ctx.fail("C17.FRESH", dflt, f"{name}: mutable default argument shared by all sessions", construct=f"{name}:mutable default")
     ctx.floor("C17.FRESH", 8)
+    # any function of the server-side modules with a mutable default argument that it mutates, returns or stores: one object for all sessions
+    for mod in ("server.py", "pathio.py", "common.py"):
+        for fn in [f for f in ast.walk(p.trees[mod]) if isinstance(f, FuncT)]:
+            a = fn.args
+            pairs = list(zip(reversed(a.posonlyargs + a.args), reversed(a.defaults))) + [(x, d_) for x, d_ in zip(a.kwonlyargs, a.kw_defaults) if d_ is not None]
+            for arg, dflt in pairs:
+                mutable = isinstance(dflt, (ast.Dict, ast.List, ast.Set)) or (isinstance(dflt, ast.Call) and last_attr(dflt.func) in ("set", "dict", "list", "deque", "defaultdict", "bytearray"))
+                if not mutable:
+                    continue
+                mutated = any(isinstance(c, ast.Call) and isinstance(c.func, ast.Attribute) and c.func.attr in MUTATORS and isinstance(c.func.value, ast.Name) and c.func.value.id == arg.arg
+                              for c in walk_no_nested(fn)) or any(isinstance(t, ast.Subscript) and isinstance(t.value, ast.Name) and t.value.id == arg.arg
+                                                                  for n_ in walk_no_nested(fn) for t in (assign_targets(n_) if isinstance(n_, (ast.Assign, ast.AugAssign, ast.Delete)) else []))
+                escapes = any(isinstance(r, ast.Return) and isinstance(r.value, ast.Name) and r.value.id == arg.arg for r in walk_no_nested(fn))
+                ctx.ob("C17.FRESH", fn, f"{p.qualname(fn)}: mutable default `{arg.arg}` is neither mutated nor returned", not (mutated or escapes),
+                       f"{p.qualname(fn)}: the mutable default argument `{arg.arg}` is mutated/returned: it is ONE object shared by every call of every session "
+                       "(values written for one session are seen - and overwritten - by another across a suspension point)", construct=f"{p.qualname(fn)}:mutable default {arg.arg}")
 
 
 def rule_closure(ctx):
